@@ -154,6 +154,17 @@ pub enum Op {
         k: u8,
         seed: u64,
         place: crate::arena::Place,
+        /// false: the other float type; true: this world's own type (used for "one big call, then small ones" histories)
+        #[serde(default)]
+        same_type: bool,
+    },
+    /// One well-shaped call whose buffers reach `target_elems` elements through a large chunk count
+    BigBatch {
+        inst: InstRef,
+        entry: Entry,
+        target_elems: u32,
+        seed: u64,
+        place: crate::arena::Place,
     },
     /// C07: process chunk `chunk` of shared buffer `buf` through this thread's own sub-slice
     SplitChunk {
